@@ -84,6 +84,8 @@ pub struct StoreState {
     /// document reads (get / multi_get), counted from 1; the listed ones fail
     pub doc_reads: u64,
     pub read_faults: std::collections::BTreeSet<u64>,
+    /// armed by the harness: the next bulk put with more than k documents applies k and fails
+    pub arm_partial_bulk: Option<u32>,
 }
 
 /// Ordered-map storage behind the real `Storage` trait.
@@ -196,9 +198,18 @@ impl SimStorage {
         items: Vec<(Key, HLCTimestamp, Option<Vec<u8>>, bool)>, // (id, ts, data, is_remove_tombstone)
         bulk: bool,
     ) -> Result<(), (SimError, Vec<Key>)> {
-        let (no, fault, park) = self.begin_mutation();
+        let (no, mut fault, park) = self.begin_mutation();
         self.latency(no).await;
         let n = items.len();
+        if fault.is_none() && bulk && kind == "multi_put" {
+            let mut st = self.st.lock();
+            if let Some(k) = st.arm_partial_bulk {
+                if n > k as usize {
+                    st.arm_partial_bulk = None;
+                    fault = Some(FaultKind::FailAfter(k));
+                }
+            }
+        }
         let limit = if let Some(p) = park {
             (p as usize).min(n)
         } else if let Some(FaultKind::FailAfter(k)) = fault {
